@@ -16,19 +16,36 @@ EXPLANATION = (
     "optional_many, delimited_many) are verified against a generic parser-function contract that "
     "every call site must meet. graphql_impl and the resolver-exception half of the statement are "
     "listed under 'unverified'.")
+def _rule_methods_not_decided():
+    """Visitor methods of the validation rules for which a frame contract is generated
+    (contracts/zz_rules.py) but which the engine does not decide on the pinned tree."""
+    try:
+        from contracts import zz_rules
+        names = sorted(f"{c.__name__}.{n}" for c in zz_rules.rule_classes()
+                       for n, _f in zz_rules.visitor_methods(c)
+                       if f"{c.__name__}.{n}" not in zz_rules.RULE_METHODS_DECIDED)
+    except Exception as e:  # noqa: BLE001
+        return [f"validation rule methods outside the generated frame contracts: not listed ({type(e).__name__})"]
+    return ["validation rule methods whose generated exception-frame contract is NOT decided (outside the "
+            "supported subset; covered by the bounded pipeline corpus only): " + ", ".join(names)]
+
+
 UNVERIFIED = [
     "Lexer.advance / Lexer.lookahead are verified relative to the invariant of the linked token chain "
     "(assumed for the current token at calls and for every token read through .next; established by "
     "Lexer.__init__, kept by lookahead - first iteration peeled so the alias token is self.token is "
     "exact); for a SchemaCoordinateLexer the override of read_next_token is what runs: not covered",
     "termination of the parser's loops and recursion (no progress measure over the token chain)",
-    "graphql_impl parse/validate stages; validate() with all rules and the executor never raising: "
-    "only a bounded stand-in over a grammar-driven corpus (props/C01_pipeline.py), not proved",
+    "graphql_impl parse/validate stages; validate() as a whole and the executor never raising: the visitor "
+    "methods of 39 rule methods have a decided exception frame (contracts/zz_rules.py, context getters "
+    "assumed to return what their annotations say), the rest and the composition only a bounded "
+    "stand-in over a grammar-driven and a semantic corpus (props/C01_pipeline.py), not proved",
     "execute_field/handle_field_error/located_error wrapping of resolver exceptions",
     "GraphQLSyntaxError.__init__ -> GraphQLError.__init__ is assumed total (it calls "
     "Source.get_location, which is under contract in C10)",
-    "recursion depth (A4)",
-]
+    "recursion depth (A4): the fragment walkers are proved to terminate, not to stay below the "
+    "interpreter's recursion limit (known finding K1)",
+] + _rule_methods_not_decided()
 TRUSTED = []
 ASSUMPTIONS = [A["A1"], A["A2"], A["A3"], A["A4"], A["ALIAS"], A["ENGINE"]]
 LIFTERS = ["props.C01:lift"]
@@ -127,6 +144,53 @@ def lift_suggestions():
 
 
 WITNESSES = {
+ "F20-stream-on-typename-under-a-union": r'''
+from graphql import build_schema, graphql_sync, parse, validate
+s = build_schema("type Dog { n: String } type Cat { n: String } union Pet = Dog | Cat type Query { pet: Pet pets: [Pet] }")
+for q in ("{ pet { __typename @stream } }", "{ pets { __typename @stream(initialCount: 1) } }"):
+    errs = validate(s, parse(q))
+    assert any("non-list field" in e.message for e in errs), errs
+    r = graphql_sync(s, q)
+    assert r.data is None and r.errors
+''',
+ "F21-integer-variable-beyond-the-str-digit-limit": r'''
+from graphql import build_schema, graphql_sync
+s = build_schema("input I { n: [Int] } type Query { f(i: Int, s: String, x: ID, fl: Float, b: Boolean, o: I): String }")
+big = 10 ** 5000
+for q, v in (("query($v: Int){f(i:$v)}", big), ("query($v: String){f(s:$v)}", big), ("query($v: ID){f(x:$v)}", -big),
+             ("query($v: Float){f(fl:$v)}", big), ("query($v: Boolean){f(b:$v)}", big), ("query($v: I){f(o:$v)}", {"n": [big]})):
+    r = graphql_sync(s, q, variable_values={"v": v})
+    assert r.data is None and r.errors and "invalid value" in r.errors[0].message, r
+''',
+ "F22-input-object-variable-with-a-key-that-is-not-a-string": r'''
+from graphql import build_schema, graphql_sync
+s = build_schema("input I { abc: String } type Query { f(i: I): String }")
+for key in (1, None, ("a",), b"abc", 2.5, frozenset()):
+    r = graphql_sync(s, "query($i: I){ f(i:$i) }", variable_values={"i": {key: 1}})
+    assert r.data is None and r.errors and "unknown field" in r.errors[0].message, r
+''',
+ # not repaired (KNOWN_FINDINGS.json 'known'): reported as KNOWN-FINDING while it fails
+ "K1-fragment-chain-deeper-than-the-recursion-limit": r'''
+import sys
+from graphql import build_schema, graphql_sync
+assert sys.getrecursionlimit() == 1000
+s = build_schema("type Query { a: Int }")
+n = 1200
+q = "{ ...F0 } " + " ".join(f"fragment F{i} on Query {{ ...F{i+1} }}" for i in range(n)) + f" fragment F{n} on Query {{ a }}"
+r = graphql_sync(s, q)      # RecursionError escapes (NoFragmentCyclesRule / OverlappingFieldsCanBeMergedRule / collect_fields_impl)
+assert r.data == {"a": None} or r.errors
+''',
+ "F19-fragment-cycle-under-mutation-or-subscription": r'''
+from graphql import build_schema, graphql_sync, parse, validate
+s = build_schema("type Query { a: Int } type Mutation { a: Int } type Subscription { a: Int }")
+for op, t in (("mutation", "Mutation"), ("subscription", "Subscription"), ("query", "Query")):
+    for q in (f"{op} {{ ...A }} fragment A on {t} {{ a ...A }}",
+              f"{op} {{ ...A }} fragment A on {t} {{ ...B }} fragment B on {t} {{ a ... {{ ...A @defer }} }}"):
+        errs = validate(s, parse(q))
+        assert any("within itself" in e.message for e in errs), errs
+        r = graphql_sync(s, q)
+        assert r.data is None and r.errors
+''',
  "F16-resolver-exception-with-odd-attributes": r'''
 from graphql import build_schema, graphql_sync
 s = build_schema("type Query { f: String }")
